@@ -524,8 +524,11 @@ def execute(plan):
                         rp.items[0]['op'] is None and \
                         rp.items[0]['status'] != 0:
                     probes['engine_rejected_header'] += 1
-                    own_limit = i < len(plan['stream']) and \
-                        plan['stream'][i]['req'].get('maxresp') is not None
+                    # (read from the frame itself: corruption may have
+                    # re-framed the stream, so positions do not map to plan
+                    # elements)
+                    own_limit = b'\x42\x00\x50\x02\x00\x00\x00\x04' in \
+                        bytes(f[:120])
                     if x['changed'] and not (
                             own_limit and rp.items[0]['reason_name']
                             == 'ResponseTooLarge'):
